@@ -1,5 +1,5 @@
 (* C04 driver.
-   (journal ID TEXTHEX ...)   amounts of the postings in file order (as written in the journal)
+   (journal ID ITEM ...)   ITEM = TEXTHEX, the amount of a posting as written, in file order, or (fmt TEXTHEX): a format directive
    -> for every amount i: "ID i <hex printed text>|<rational>|<hex text of a/7>|<rational of a/7>|<hex text of a*0.333>|<rational>|<hex report-column text>"
       or "ID i E" when the reader rejects the text. *)
 let pow10 p = let rec go acc k = if k = 0 then acc else go (h_mul acc z10) (k - 1) in go (z_of_int 1) (int_of_z p)
@@ -14,24 +14,27 @@ let no_style = { st_suffixed = false; st_separated = false; st_thousands = false
 let handle line =
   match parse_sexp line with
   | L (A "journal" :: A id :: texts) ->
-    let texts = List.map (fun t -> str_of_hex (atom t)) texts in
-    let pool : (string * cinfo) list ref = ref [] in
-    let lookup sym = try List.assoc sym !pool with Not_found -> { ci_prec = Z0; ci_style = no_style } in
+    (* an item is the text of a posting amount, or (fmt TEXT): a `commodity SYM / format TEXT` directive at that place *)
+    let items = List.map (function L [A "fmt"; t] -> (true, str_of_hex (atom t)) | t -> (false, str_of_hex (atom t))) texts in
+    let pool : (string * finfo) list ref = ref [] in
+    let lookup_f sym = try List.assoc sym !pool with Not_found -> { fi_info = { ci_prec = Z0; ci_style = no_style }; fi_fixed = false } in
+    let lookup sym = (lookup_f sym).fi_info in
     (* first pass: parse in file order, teaching the pool *)
-    let parsed = List.map (fun t ->
+    let parsed_all = List.map (fun (is_fmt, t) ->
         match split_amount t with
-        | Err _ -> None
+        | Err _ -> (is_fmt, None)
         | Ok ap ->
           let sym = string_of_str ap.ap_sym in
           let dc0 = (lookup sym).ci_style.st_decimal_comma in
           (match parse_amount_text dc0 t with
-           | Err _ -> None
+           | Err _ -> (is_fmt, None)
            | Ok pa ->
              if sym <> "" then begin
-               let ci = learn (lookup sym) pa.pa_prec pa.pa_style in
-               pool := (sym, ci) :: List.remove_assoc sym !pool
+               let fi = (if is_fmt then fix_format else learn_f) (lookup_f sym) pa.pa_prec pa.pa_style in
+               pool := (sym, fi) :: List.remove_assoc sym !pool
              end;
-             Some pa)) texts in
+             (is_fmt, Some pa))) items in
+    let parsed = List.map snd (List.filter (fun (is_fmt, _) -> not is_fmt) parsed_all) in
     let cp c = (lookup (string_of_str c)).ci_prec in
     List.mapi (fun i p ->
         match p with
